@@ -8,6 +8,9 @@ import (
 	"time"
 
 	"github.com/anishathalye/porcupine"
+	"github.com/go-kid/ioc/component_definition"
+	"github.com/go-kid/ioc/container"
+	"github.com/go-kid/ioc/syslog"
 
 	"verifsim/model"
 	"verifsim/simrt"
@@ -39,14 +42,24 @@ type LinSet interface {
 	Length() int
 }
 
+// LinDefReg is the definition registry built on the instrumented map (the registry the
+// scanner goroutines of the parallel scanning phase share).
+type LinDefReg = container.DefinitionRegistry
+
 type LinBinding struct {
 	NewMap  func() LinMap
 	NewSet  func() LinSet
 	NewGSet func() LinSet
+	// NewDefReg builds the instrumented copy of the default definition registry (nil if the
+	// batch was built without it).
+	NewDefReg func() LinDefReg
 }
 
+// linComp is the component behind a definition in defreg histories; V identifies the definition.
+type linComp struct{ V int }
+
 type LinOp struct {
-	Kind string `json:"k"` // map: load store los losfn delete range; set: put exists remove toarray
+	Kind string `json:"k"` // map: load store los losfn delete range; set: put exists remove toarray; defreg: gor gbn reg metas
 	Key  int    `json:"key"`
 	Val  int    `json:"v,omitempty"`
 }
@@ -92,6 +105,20 @@ var mapModel = porcupine.Model{
 			}
 			st[in.Key] = in.Val
 			return !out.Ok && out.Val == in.Val, st
+		case "gor":
+			// get-or-register: the registered definition if there is one, else the caller's own
+			if st[in.Key] != 0 {
+				return out.Val == st[in.Key], st
+			}
+			st[in.Key] = in.Val
+			return out.Val == in.Val, st
+		case "gbn":
+			return out.Ok == (st[in.Key] != 0) && (!out.Ok || out.Val == st[in.Key]), st
+		case "reg":
+			st[in.Key] = in.Val
+			return true, st
+		case "metas":
+			return out.Snap == st, st
 		case "delete":
 			st[in.Key] = 0
 			return true, st
@@ -116,6 +143,14 @@ var mapModel = porcupine.Model{
 			return fmt.Sprintf("Delete(k%d)", in.Key)
 		case "range":
 			return fmt.Sprintf("Range -> %v", out.Snap)
+		case "gor":
+			return fmt.Sprintf("GetMetaOrRegister(k%d,def%d) -> def%d", in.Key, in.Val, out.Val)
+		case "gbn":
+			return fmt.Sprintf("GetMetaByName(k%d) -> (def%d,%v)", in.Key, out.Val, out.Ok)
+		case "reg":
+			return fmt.Sprintf("RegisterMeta(k%d,def%d)", in.Key, in.Val)
+		case "metas":
+			return fmt.Sprintf("GetMetas -> %v", out.Snap)
 		}
 		return in.Kind
 	},
@@ -168,11 +203,13 @@ var setModel = porcupine.Model{
 
 func genLinCase(r *rand.Rand) *LinCase {
 	c := &LinCase{Seed: r.Uint64()}
-	switch r.IntN(4) {
+	switch r.IntN(5) {
 	case 0:
 		c.Target = "set"
 	case 1:
 		c.Target = "gset"
+	case 2:
+		c.Target = "defreg"
 	default:
 		c.Target = "map"
 	}
@@ -192,6 +229,12 @@ func genLinCase(r *rand.Rand) *LinCase {
 				kinds := []string{"load", "store", "los", "losfn", "losfn", "delete"}
 				if withRange {
 					kinds = append(kinds, "range")
+				}
+				op.Kind = kinds[r.IntN(len(kinds))]
+			} else if c.Target == "defreg" {
+				kinds := []string{"gor", "gor", "gor", "gbn", "gbn", "reg"}
+				if withRange {
+					kinds = append(kinds, "metas")
 				}
 				op.Kind = kinds[r.IntN(len(kinds))]
 			} else {
@@ -226,7 +269,23 @@ func runLin(lb *LinBinding, c *LinCase, replay bool) (ops []porcupine.Operation,
 	}
 	var m LinMap
 	var s LinSet
+	var dr LinDefReg
+	defVal := func(md *component_definition.Meta) int {
+		if md == nil {
+			return 0
+		}
+		if lc, ok := md.Raw.(*linComp); ok {
+			return lc.V
+		}
+		return -1
+	}
 	switch c.Target {
+	case "defreg":
+		if lb.NewDefReg == nil {
+			return nil, nil, 0
+		}
+		syslog.SetLogger(simrt.SilentLogger{})
+		dr = lb.NewDefReg()
 	case "map":
 		m = lb.NewMap()
 	case "set":
@@ -288,6 +347,29 @@ func runLin(lb *LinBinding, c *LinCase, replay bool) (ops []porcupine.Operation,
 					if c.AtomicRange {
 						sc.atomic--
 					}
+				case "gor":
+					out.Val = defVal(dr.GetMetaOrRegister(k, &linComp{V: op.Val}))
+				case "gbn":
+					md := dr.GetMetaByName(k)
+					out.Val, out.Ok = defVal(md), md != nil
+				case "reg":
+					md := component_definition.NewMeta(&linComp{V: op.Val})
+					md.SetName(k)
+					dr.RegisterMeta(md)
+				case "metas":
+					if c.AtomicRange {
+						sc.atomic++
+					}
+					for _, md := range dr.GetMetas() {
+						for q := 0; q < linKeys; q++ {
+							if keyName(q) == md.Name() {
+								out.Snap[q] = defVal(md)
+							}
+						}
+					}
+					if c.AtomicRange {
+						sc.atomic--
+					}
 				case "put":
 					s.Put(k)
 				case "exists":
@@ -344,13 +426,15 @@ func runLin(lb *LinBinding, c *LinCase, replay bool) (ops []porcupine.Operation,
 
 func isMutation(kind string) bool {
 	switch kind {
-	case "store", "los", "losfn", "delete", "put", "remove":
+	case "store", "los", "losfn", "delete", "put", "remove", "gor", "reg":
 		return true
 	}
 	return false
 }
 
-func isScan(kind string) bool { return kind == "range" || kind == "toarray" || kind == "length" }
+func isScan(kind string) bool {
+	return kind == "range" || kind == "toarray" || kind == "length" || kind == "metas"
+}
 
 // judgeLin checks one history. Oracles: "both-callers-won" (two load-or-stores of an absent
 // key both reported not-loaded without a delete in between - a plain invariant that does
@@ -358,10 +442,33 @@ func isScan(kind string) bool { return kind == "range" || kind == "toarray" || k
 // becomes linearizable once the scans that overlap a mutation are removed).
 func judgeLin(c *LinCase, ops []porcupine.Operation) (vs []model.Violation, inconclusive bool) {
 	mdl := mapModel
-	if c.Target != "map" {
+	if c.Target != "map" && c.Target != "defreg" {
 		mdl = setModel
 	}
-	// plain invariant
+	// plain invariant: without a RegisterMeta in between, every get-or-register of one name
+	// answers with one and the same definition
+	if c.Target == "defreg" {
+		for k := 0; k < linKeys; k++ {
+			seen := map[int]bool{}
+			regs := 0
+			for _, op := range ops {
+				in := op.Input.(linIn)
+				if in.Key != k {
+					continue
+				}
+				if in.Kind == "gor" {
+					seen[op.Output.(linOut).Val] = true
+				}
+				if in.Kind == "reg" {
+					regs++
+				}
+			}
+			if regs == 0 && len(seen) > 1 {
+				vs = append(vs, model.Violation{Property: "C20", Oracle: "both-callers-won", Key: keyName(k),
+					Detail: fmt.Sprintf("GetMetaOrRegister(%s) answered with %d different definitions although nothing else registered that name: two callers both won; history: %s", keyName(k), len(seen), describeHistory(mdl, ops))})
+			}
+		}
+	}
 	if c.Target == "map" {
 		for k := 0; k < linKeys; k++ {
 			wins, deletes := 0, 0
@@ -537,7 +644,7 @@ func linsimBatch(lb *LinBinding, job *Job, n int, acc *statAcc, res *Result) {
 		}
 		if len(acc.Samples) < 2 && overlap {
 			mdl := mapModel
-			if c.Target != "map" {
+			if c.Target != "map" && c.Target != "defreg" {
 				mdl = setModel
 			}
 			acc.Samples = append(acc.Samples, map[string]any{"engine": "linsim", "target": c.Target, "atomicRange": c.AtomicRange, "clients": c.Clients, "picks": len(picks), "history": describeHistory(mdl, ops)})
